@@ -14,9 +14,43 @@ LEVEL = "other"
 REG = "pyimpspec.circuit.registry"
 TOK = "pyimpspec.circuit.tokenizer"
 PARSER = "pyimpspec.circuit.parser"
-GLOBALS = ("_ELEMENTS", "_DEFAULT_ELEMENTS", "_PRIVATE_ELEMENTS", "_DEFAULT_ELEMENT_PARAMETERS")
+GLOBALS: Set[str] = {"_ELEMENTS", "_DEFAULT_ELEMENTS", "_PRIVATE_ELEMENTS", "_DEFAULT_ELEMENT_PARAMETERS"}
 STRING_NAMES = {"ascii_uppercase": string.ascii_uppercase, "ascii_lowercase": string.ascii_lowercase, "digits": string.digits,
                 "ascii_letters": string.ascii_letters, "whitespace": string.whitespace}
+
+
+def _discover_globals(mod) -> Set[str]:
+    """Module-level mutable state of registry.py: names bound at module level to a container
+    display/constructor or None, or declared `global` in some function."""
+    out: Set[str] = set()
+    for n in mod.tree.body:
+        tgt = val = None
+        if isinstance(n, ast.Assign) and isinstance(n.targets[0], ast.Name):
+            tgt, val = n.targets[0].id, n.value
+        elif isinstance(n, ast.AnnAssign) and isinstance(n.target, ast.Name) and n.value is not None:
+            tgt, val = n.target.id, n.value
+        if tgt and (isinstance(val, (ast.Dict, ast.List, ast.Set)) or (isinstance(val, ast.Constant) and val.value is None)
+                    or (isinstance(val, ast.Call) and dotted(val.func) in ("dict", "list", "set", "OrderedDict", "defaultdict"))):
+            out.add(tgt)
+    for n in walk_ordered(mod.tree, into_functions=True):
+        if isinstance(n, ast.Global):
+            out.update(x for x in n.names if x != "_VALIDATE_IMPEDANCES")
+    return out
+
+
+def _transitive_writes(model, fi, depth: int = 3, _seen=None) -> Dict[str, List[Tuple[ast.AST, str]]]:
+    """Global writes of fi and of the registry-module functions it calls."""
+    _seen = _seen if _seen is not None else set()
+    if fi.qname in _seen or depth < 0:
+        return {}
+    _seen.add(fi.qname)
+    out = {k: list(v) for k, v in _global_writes(fi.node).items()}
+    for c in calls_in(fi.node):
+        q = model.resolve_call(fi, c)
+        if q and q in model.funcs and model.funcs[q].module == REG:
+            for k, v in _transitive_writes(model, model.funcs[q], depth - 1, _seen).items():
+                out.setdefault(k, []).extend((c, f"{kind} via {q.split(':')[1]}") for _, kind in v)
+    return out
 
 
 def _global_writes(fn: ast.AST) -> Dict[str, List[Tuple[ast.AST, str]]]:
@@ -37,6 +71,15 @@ def _global_writes(fn: ast.AST) -> Dict[str, List[Tuple[ast.AST, str]]]:
     return out
 
 
+def _complete_defaults(text: str) -> bool:
+    t = text.replace(" ", "")
+    if "_DEFAULT_ELEMENTS" in t and "get_elements(" not in t:
+        return True
+    if "get_elements(" in t and "default_only=True" in t and "private=True" in t:
+        return True
+    return False
+
+
 def check(ctx: Ctx) -> None:
     model = get_model(ctx.repo)
     ctx.modules_consulted.update({REG, TOK, PARSER, "pyimpspec.circuit.elements", "pyimpspec.circuit.base"})
@@ -52,8 +95,10 @@ def check(ctx: Ctx) -> None:
     ini = model.fi(REG, "_initialized")
 
     # ---------------- R15.1 ------------------------------------------------------------
-    w_reg = _global_writes(reg.node)
-    w_rst = _global_writes(rst.node)
+    GLOBALS.update(_discover_globals(ctx.repo.module(REG)))
+    ctx.extra_cov["registry_globals"] = sorted(GLOBALS)
+    w_reg = _transitive_writes(model, reg)
+    w_rst = _transitive_writes(model, rst)
     if "_ELEMENTS" not in w_reg:
         raise AnalysisError("register_element: store into _ELEMENTS not found")
     for g, sites in w_reg.items():
@@ -62,9 +107,17 @@ def check(ctx: Ctx) -> None:
             ctx.violation("R15.1", f"reset:does-not-restore:{g}", REG, rst.node,
                           f"register_element mutates {g} but reset() never touches it: entries of removed user-defined elements survive a reset")
             continue
-        kinds = [k for _, k in w_rst[g]]
+        kinds = [k.split(" via ")[0] for _, k in w_rst[g]]
+        if g not in ("_ELEMENTS", "_PRIVATE_ELEMENTS"):
+            # derived state (e.g. a cache): any invalidation (clear / rebind) restores it
+            if any(k in ("clear", "rebind") for k in kinds):
+                ctx.ok()
+            else:
+                ctx.violation("R15.1", f"reset:does-not-restore:{g}", REG, rst.node,
+                              f"register_element changes {g} but reset() neither clears nor rebinds it")
+            continue
         if g == "_ELEMENTS":
-            good = ("clear" in kinds and any(k == "update" and norm(n.args[0]) == "_DEFAULT_ELEMENTS" for n, k in w_rst[g] if isinstance(n, ast.Call))) \
+            good = ("clear" in kinds and any(k.startswith("update") and isinstance(n, ast.Call) and n.args and norm(n.args[0]) == "_DEFAULT_ELEMENTS" for n, k in w_rst[g])) \
                 or any(k == "rebind" and "_DEFAULT_ELEMENTS" in norm(n.value) for n, k in w_rst[g] if isinstance(n, ast.Assign))
         else:
             good = False
@@ -144,6 +197,38 @@ def check(ctx: Ctx) -> None:
     else:
         ctx.violation("R15.2", "remove_elements:default-guard", REG, pops[0],
                       "an element can be popped from _ELEMENTS without first passing the refusal of default elements: built-ins can be removed")
+    ctx.instance("R15.2", "the refusal in remove_elements protects ALL built-ins (public and private)")
+    from ..prov import Resolver
+    Rm = Resolver(rm.node)
+    prot = None
+    for x in walk_ordered(rm.node):
+        if isinstance(x, ast.If) and always_exits(x.body) and isinstance(x.test, ast.Compare) and isinstance(x.test.ops[0], ast.In) \
+                and isinstance(parent(x), ast.For):
+            prot = Rm.text(x.test.comparators[0], x)
+    if prot is None:
+        if refusal_ok:
+            raise AnalysisError("remove_elements: refusal test `element in <protected set>` not found")
+        ctx.note("remove_elements: no refusal of built-ins found (reported as R15.2 default-guard)")
+    elif _complete_defaults(prot):
+        ctx.ok()
+    else:
+        ctx.violation("R15.2", "remove_elements:protected-set", REG, rm.node,
+                      f"the set of protected built-ins is {prot[:70]}, which is not all of _DEFAULT_ELEMENTS (private built-ins such as K/Ky can be removed)")
+    ctx.instance("R15.1", "reset_default_parameter_values() without arguments covers ALL built-ins")
+    Rd = Resolver(rdp.node)
+    dom = None
+    for x in walk_ordered(rdp.node):
+        if isinstance(x, ast.If) and norm(x.test) == "elements is None":
+            for st_ in x.body:
+                if isinstance(st_, ast.Assign) and norm(st_.targets[0]) == "elements":
+                    dom = norm(st_.value)
+    if dom is None:
+        raise AnalysisError("reset_default_parameter_values: the `elements is None` default not found")
+    if _complete_defaults(dom):
+        ctx.ok()
+    else:
+        ctx.violation("R15.1", "reset_default_parameter_values:domain", REG, rdp.node,
+                      f"with no argument the defaults of {dom[:70]} are restored, which omits the private built-ins (K, Ky): their changed defaults survive reset()")
     ctx.instance("R15.2", "_initialized() is the last statement of elements.py, after every element module")
     em = ctx.repo.module("pyimpspec.circuit.elements")
     last = em.tree.body[-1]
@@ -243,6 +328,15 @@ def check(ctx: Ctx) -> None:
                     ctx.ok()
     if n_reads < 3:
         raise AnalysisError(f"R15.4: only {n_reads} get_elements() call sites found (floor 3)")
+    from ..cfg import returns_not_passing
+    ge = model.fi(REG, "get_elements")
+    ctx.instance("R15.4", "get_elements() reads the live registry on every path")
+    badr = returns_not_passing(ge.node, lambda a: any(isinstance(x, ast.Name) and x.id in ("_ELEMENTS", "_DEFAULT_ELEMENTS") for x in ast.walk(a)))
+    if badr:
+        ctx.violation("R15.4", "get_elements:memoised-path", REG, badr[0],
+                      "get_elements() has a return path that does not read _ELEMENTS/_DEFAULT_ELEMENTS: a memoised table can outlive register/remove/reset")
+    else:
+        ctx.ok()
     pi = model.fi(PARSER, "Parser.__init__")
     ctx.instance("R15.4", "Parser takes its element table per instance; parse_cdc builds a Parser per call")
     per_inst = any(isinstance(n, (ast.Assign, ast.AnnAssign)) and norm(n.targets[0] if isinstance(n, ast.Assign) else n.target) == "self._valid_elements"
